@@ -32,6 +32,7 @@ fn run_c(t: &Tape, want_desc: bool) -> CaseResult {
 
 pub fn suites() -> Vec<Suite> {
     vec![
+        crate::props::funcs::suite_reverse_formula(),
         Suite {
             name: "forward_vs_execution",
             about: "(a) Simulation queried in the pre-state vs the immediately executed well-formed swap (attributes and ledger), all pair kinds, both directions, offers from 1 to beyond the reserves",
